@@ -141,7 +141,8 @@ def run_block(ctx, M, op, depth, stats):
             raise InjectedFault("fault in block body")
 
     if kind in ("amp_temp_params", "vm_temp_params", "mask_params"):
-        names = M.tv if M.tv else M.names
+        # free AND fixed parameters (e.g. a fixed mass in a scan)
+        names = M.names
         over = {names[i % len(names)]: float(v) for i, v in arg}
         if kind == "amp_temp_params":
             cm = amp.temp_params(over)
@@ -190,7 +191,7 @@ def run_compute(ctx, M, op, stats):
         elif kind == "fit_fractions_params":
             from tf_pwa.applications import fit_fractions
 
-            names = M.tv if M.tv else M.names
+            names = M.names
             fit_fractions(amp, M.data, batch=7, method="old", params={names[arg[0] % len(names)]: 0.77})
         elif kind == "no_grad":
             from tf_pwa.fitfractions import cal_fitfractions_no_grad
@@ -300,9 +301,35 @@ prior_st = st.one_of(
     st.tuples(st.just("select"), st.lists(st.integers(0, 5), min_size=1, max_size=3)),
     st.tuples(st.just("set_params"), pvals),
 )
+def _share(spec):
+    """4-body: chains with the same tree share their innermost resonance (one
+    resonance then appears in several chains)."""
+    spec = dict(spec)
+    first = {}
+    chains = []
+    for ch in spec["chains"]:
+        ch = dict(ch, res=dict(ch["res"]), p_break_top=True)
+        keys = sorted(ch["res"], key=len)
+        t = str(ch["tree"])
+        if t in first and len(keys) >= 2:
+            ch["res"][keys[0]] = first[t]["res"][keys[0]]
+        else:
+            first[t] = ch
+        for k in keys[1:]:
+            ch["res"][k] = dict(ch["res"][k], dopts={"p_break": True})
+        chains.append(ch)
+    spec["chains"] = chains
+    return spec
+
+
+CASCADES = [[[[0, 1], 2], 3], [[[0, 1], 2], 3], [[[0, 1], 3], 2], [[[0, 1], 2], 3]]
+spec_st = st.one_of(
+    gen.structure(nfinal=3, max_chains=4, min_chains=3, need_spin=True),
+    gen.structure(nfinal=4, max_chains=3, min_chains=3, trees=CASCADES).map(_share),
+)
 case_st = st.fixed_dictionaries(
     {
-        "spec": gen.structure(nfinal=3, max_chains=4, min_chains=3, need_spin=True),
+        "spec": spec_st,
         "pv": st.lists(st.floats(0.05, 0.95), min_size=8, max_size=8),
         "ev_seed": st.integers(0, 2**31 - 1),
         "steps": st.lists(st.one_of(op_st, op_st, prior_st), min_size=1, max_size=8),
